@@ -3,6 +3,7 @@ package simrt
 import (
 	"fmt"
 	mrand "math/rand"
+	"os"
 	"runtime"
 	"runtime/debug"
 	"sort"
@@ -215,6 +216,10 @@ func Run(tape *Tape, cfg Config, body func(s *Sim)) *Result {
 	}
 	s.nodes = append(s.nodes, &Node{ID: 0, Name: "harness", Data: map[string]any{}})
 	s.drawStrategy()
+	// Pin the process-global math/rand source used by untransformed
+	// dependencies (cenkalti/backoff jitter...) with a tape draw, so that a
+	// replay is a pure function of its tape.
+	mrand.Seed(int64(1 + s.Tape.Draw(1<<30))) //nolint:staticcheck
 	if !active.CompareAndSwap(nil, s) {
 		return &Result{Infra: "another simulation is active in this process"}
 	}
@@ -1260,3 +1265,14 @@ func AfterFunc(d time.Duration, f func()) *time.Timer {
 // the k-th timer created after this call gets NextTimerEps()+k-1 nanoseconds
 // (modulo 999983).
 func (s *Sim) NextTimerEps() time.Duration { return time.Duration(1 + (s.timerSeq+1)%999983) }
+
+func init() {
+	// make math/rand.Seed effective again (Go >= 1.24 ignores it by default)
+	g := os.Getenv("GODEBUG")
+	if !strings.Contains(g, "randseednop") {
+		if g != "" {
+			g += ","
+		}
+		os.Setenv("GODEBUG", g+"randseednop=0")
+	}
+}
